@@ -74,6 +74,7 @@ def strategy(tier: str):
 # bounded-exhaustive part: every sequence of <= N inline "tokens" (small-scope hypothesis: delimiter and bracket
 # mismatches need only a handful of tokens)
 INLINE_ALPHABET = ["*", "**", "_", "~~", "[", "]", "](u)", "![", "`", "a", " ", "<b>", "&amp;", "\\*", "\n", "<http://x.y>", "(", "~~~"]
+NEST_ALPHABET = ["*", "**", "_", "~~", "~~~", "[", "](u)", "![", "a", " ", "`"]
 ENUM_CFGS = [C.simple("js-default", html=True, typographer=True), C.simple("commonmark", enable=["strikethrough"])]
 
 
@@ -90,6 +91,13 @@ def enumerate_cases(tier: str, shard: int, nshards: int):
             yield {"kind": "enum", "src": "".join(combo)}
 
 
+    # nesting alphabet: every concatenation of <= 5 (thorough 6) tokens
+    for k in range(1, (5 if tier == "quick" else 6) + 1):
+        for combo in itertools.product(NEST_ALPHABET, repeat=k):
+            idx += 1
+            if idx % nshards != shard:
+                continue
+            yield {"kind": "enum", "src": "".join(combo)}
     # the pathological families of C20 at two sizes: structure must also hold at scale
     from .c20 import F as FAMILIES
 
